@@ -269,7 +269,7 @@ package iohelp
 //@   ensures err == nil ==> er.Err == old(er.Err)
 //@   ensures taken(er.Reader) == old(taken(er.Reader)) + n
 //@   ensures forall j int :: 0 <= j && j < n ==> byte(b, j) == rbyte(sid(er.Reader), old(taken(er.Reader)) + j)
-//@   modifies b[0:len(b)], er.Err, taken(er.Reader), failed(er.Reader), tr(b), hw(b)
+//@   modifies b[0:len(b)], er.Err, taken(er.Reader), failed(er.Reader), any(io.LimitedReader.N), tr(b), hw(b)
 
 // io.ReadFull(r, buf) with r an *ErrorReader is one call of r.Read(buf) (or none when buf is empty).
 //@ assume-func io.ReadFull[r:*ErrorReader]
@@ -281,12 +281,12 @@ package iohelp
 //@   ensures err == nil ==> asptr(r, *ErrorReader).Err == old(asptr(r, *ErrorReader).Err)
 //@   ensures taken(asptr(r, *ErrorReader).Reader) == old(taken(asptr(r, *ErrorReader).Reader)) + n
 //@   ensures forall j int :: 0 <= j && j < n ==> byte(buf, j) == rbyte(sid(asptr(r, *ErrorReader).Reader), old(taken(asptr(r, *ErrorReader).Reader)) + j)
-//@   modifies buf[0:len(buf)], asptr(r, *ErrorReader).Err, taken(asptr(r, *ErrorReader).Reader), failed(asptr(r, *ErrorReader).Reader), tr(buf), hw(buf)
+//@   modifies buf[0:len(buf)], asptr(r, *ErrorReader).Err, taken(asptr(r, *ErrorReader).Reader), failed(asptr(r, *ErrorReader).Reader), any(io.LimitedReader.N), tr(buf), hw(buf)
 
 //@ func (*ErrorReader).Drain
 //@   requires okR(er)
 //@   ensures taken(er.Reader) >= old(taken(er.Reader))
-//@   modifies taken(er.Reader), failed(er.Reader), fresh(byte), alloc()
+//@   modifies taken(er.Reader), failed(er.Reader), any(io.LimitedReader.N), fresh(byte), tr(), hw(), alloc()
 
 // Stream readers. [AGREE]: on success the result is what the byte-slice reader returns for the
 // bytes taken. [LATCH]: a short read is reflected in r.Err. [STALE]: when the read comes up short,
@@ -298,7 +298,7 @@ package iohelp
 //@   ensures [LATCH] old(r.Err) != nil ==> r.Err != nil
 //@   ensures [AGREE] r.Err == nil ==> taken(r.Reader) == old(taken(r.Reader)) + 1 && result == (rle(r.Reader, old(taken(r.Reader)), 1) == 1)
 //@   noninterference [STALE] taken(r.Reader) < old(taken(r.Reader)) + 1 : r.buffer[0:8]
-//@   modifies r.buffer[0:8], r.Err, taken(r.Reader), failed(r.Reader), tr(r.buffer), hw(r.buffer)
+//@   modifies r.buffer[0:8], r.Err, taken(r.Reader), failed(r.Reader), any(io.LimitedReader.N), tr(r.buffer), hw(r.buffer)
 //@ func ReadByte
 //@   requires okR(r)
 //@   ensures okR(r)
@@ -306,7 +306,7 @@ package iohelp
 //@   ensures [LATCH] old(r.Err) != nil ==> r.Err != nil
 //@   ensures [AGREE] r.Err == nil ==> taken(r.Reader) == old(taken(r.Reader)) + 1 && result == rle(r.Reader, old(taken(r.Reader)), 1)
 //@   noninterference [STALE] taken(r.Reader) < old(taken(r.Reader)) + 1 : r.buffer[0:8]
-//@   modifies r.buffer[0:8], r.Err, taken(r.Reader), failed(r.Reader), tr(r.buffer), hw(r.buffer)
+//@   modifies r.buffer[0:8], r.Err, taken(r.Reader), failed(r.Reader), any(io.LimitedReader.N), tr(r.buffer), hw(r.buffer)
 //@ func ReadUint8
 //@   requires okR(r)
 //@   ensures okR(r)
@@ -314,7 +314,7 @@ package iohelp
 //@   ensures [LATCH] old(r.Err) != nil ==> r.Err != nil
 //@   ensures [AGREE] r.Err == nil ==> taken(r.Reader) == old(taken(r.Reader)) + 1 && result == rle(r.Reader, old(taken(r.Reader)), 1)
 //@   noninterference [STALE] taken(r.Reader) < old(taken(r.Reader)) + 1 : r.buffer[0:8]
-//@   modifies r.buffer[0:8], r.Err, taken(r.Reader), failed(r.Reader), tr(r.buffer), hw(r.buffer)
+//@   modifies r.buffer[0:8], r.Err, taken(r.Reader), failed(r.Reader), any(io.LimitedReader.N), tr(r.buffer), hw(r.buffer)
 //@ func ReadUint16
 //@   requires okR(r)
 //@   ensures okR(r)
@@ -322,7 +322,7 @@ package iohelp
 //@   ensures [LATCH] old(r.Err) != nil ==> r.Err != nil
 //@   ensures [AGREE] r.Err == nil ==> taken(r.Reader) == old(taken(r.Reader)) + 2 && result == rle(r.Reader, old(taken(r.Reader)), 2)
 //@   noninterference [STALE] taken(r.Reader) < old(taken(r.Reader)) + 2 : r.buffer[0:8]
-//@   modifies r.buffer[0:8], r.Err, taken(r.Reader), failed(r.Reader), tr(r.buffer), hw(r.buffer)
+//@   modifies r.buffer[0:8], r.Err, taken(r.Reader), failed(r.Reader), any(io.LimitedReader.N), tr(r.buffer), hw(r.buffer)
 //@ func ReadInt16
 //@   requires okR(r)
 //@   ensures okR(r)
@@ -330,7 +330,7 @@ package iohelp
 //@   ensures [LATCH] old(r.Err) != nil ==> r.Err != nil
 //@   ensures [AGREE] r.Err == nil ==> taken(r.Reader) == old(taken(r.Reader)) + 2 && result == signed(rle(r.Reader, old(taken(r.Reader)), 2), 16)
 //@   noninterference [STALE] taken(r.Reader) < old(taken(r.Reader)) + 2 : r.buffer[0:8]
-//@   modifies r.buffer[0:8], r.Err, taken(r.Reader), failed(r.Reader), tr(r.buffer), hw(r.buffer)
+//@   modifies r.buffer[0:8], r.Err, taken(r.Reader), failed(r.Reader), any(io.LimitedReader.N), tr(r.buffer), hw(r.buffer)
 //@ func ReadUint32
 //@   requires okR(r)
 //@   ensures okR(r)
@@ -338,7 +338,7 @@ package iohelp
 //@   ensures [LATCH] old(r.Err) != nil ==> r.Err != nil
 //@   ensures [AGREE] r.Err == nil ==> taken(r.Reader) == old(taken(r.Reader)) + 4 && result == rle(r.Reader, old(taken(r.Reader)), 4)
 //@   noninterference [STALE] taken(r.Reader) < old(taken(r.Reader)) + 4 : r.buffer[0:8]
-//@   modifies r.buffer[0:8], r.Err, taken(r.Reader), failed(r.Reader), tr(r.buffer), hw(r.buffer)
+//@   modifies r.buffer[0:8], r.Err, taken(r.Reader), failed(r.Reader), any(io.LimitedReader.N), tr(r.buffer), hw(r.buffer)
 //@ func ReadInt32
 //@   requires okR(r)
 //@   ensures okR(r)
@@ -346,7 +346,7 @@ package iohelp
 //@   ensures [LATCH] old(r.Err) != nil ==> r.Err != nil
 //@   ensures [AGREE] r.Err == nil ==> taken(r.Reader) == old(taken(r.Reader)) + 4 && result == signed(rle(r.Reader, old(taken(r.Reader)), 4), 32)
 //@   noninterference [STALE] taken(r.Reader) < old(taken(r.Reader)) + 4 : r.buffer[0:8]
-//@   modifies r.buffer[0:8], r.Err, taken(r.Reader), failed(r.Reader), tr(r.buffer), hw(r.buffer)
+//@   modifies r.buffer[0:8], r.Err, taken(r.Reader), failed(r.Reader), any(io.LimitedReader.N), tr(r.buffer), hw(r.buffer)
 //@ func ReadUint64
 //@   requires okR(r)
 //@   ensures okR(r)
@@ -354,7 +354,7 @@ package iohelp
 //@   ensures [LATCH] old(r.Err) != nil ==> r.Err != nil
 //@   ensures [AGREE] r.Err == nil ==> taken(r.Reader) == old(taken(r.Reader)) + 8 && result == rle(r.Reader, old(taken(r.Reader)), 8)
 //@   noninterference [STALE] taken(r.Reader) < old(taken(r.Reader)) + 8 : r.buffer[0:8]
-//@   modifies r.buffer[0:8], r.Err, taken(r.Reader), failed(r.Reader), tr(r.buffer), hw(r.buffer)
+//@   modifies r.buffer[0:8], r.Err, taken(r.Reader), failed(r.Reader), any(io.LimitedReader.N), tr(r.buffer), hw(r.buffer)
 //@ func ReadInt64
 //@   requires okR(r)
 //@   ensures okR(r)
@@ -362,7 +362,7 @@ package iohelp
 //@   ensures [LATCH] old(r.Err) != nil ==> r.Err != nil
 //@   ensures [AGREE] r.Err == nil ==> taken(r.Reader) == old(taken(r.Reader)) + 8 && result == signed(rle(r.Reader, old(taken(r.Reader)), 8), 64)
 //@   noninterference [STALE] taken(r.Reader) < old(taken(r.Reader)) + 8 : r.buffer[0:8]
-//@   modifies r.buffer[0:8], r.Err, taken(r.Reader), failed(r.Reader), tr(r.buffer), hw(r.buffer)
+//@   modifies r.buffer[0:8], r.Err, taken(r.Reader), failed(r.Reader), any(io.LimitedReader.N), tr(r.buffer), hw(r.buffer)
 //@ func ReadFloat32
 //@   requires okR(r)
 //@   ensures okR(r)
@@ -370,7 +370,7 @@ package iohelp
 //@   ensures [LATCH] old(r.Err) != nil ==> r.Err != nil
 //@   ensures [AGREE] r.Err == nil ==> taken(r.Reader) == old(taken(r.Reader)) + 4 && result == rle(r.Reader, old(taken(r.Reader)), 4)
 //@   noninterference [STALE] taken(r.Reader) < old(taken(r.Reader)) + 4 : r.buffer[0:8]
-//@   modifies r.buffer[0:8], r.Err, taken(r.Reader), failed(r.Reader), tr(r.buffer), hw(r.buffer)
+//@   modifies r.buffer[0:8], r.Err, taken(r.Reader), failed(r.Reader), any(io.LimitedReader.N), tr(r.buffer), hw(r.buffer)
 //@ func ReadFloat64
 //@   requires okR(r)
 //@   ensures okR(r)
@@ -378,7 +378,7 @@ package iohelp
 //@   ensures [LATCH] old(r.Err) != nil ==> r.Err != nil
 //@   ensures [AGREE] r.Err == nil ==> taken(r.Reader) == old(taken(r.Reader)) + 8 && result == rle(r.Reader, old(taken(r.Reader)), 8)
 //@   noninterference [STALE] taken(r.Reader) < old(taken(r.Reader)) + 8 : r.buffer[0:8]
-//@   modifies r.buffer[0:8], r.Err, taken(r.Reader), failed(r.Reader), tr(r.buffer), hw(r.buffer)
+//@   modifies r.buffer[0:8], r.Err, taken(r.Reader), failed(r.Reader), any(io.LimitedReader.N), tr(r.buffer), hw(r.buffer)
 //@ func ReadDate
 //@   requires okR(r)
 //@   ensures okR(r)
@@ -388,18 +388,18 @@ package iohelp
 //@   ensures [AGREE] r.Err == nil && rle(r.Reader, old(taken(r.Reader)), 8) == 0 ==> isZeroTime(result)
 //@   ensures [AGREE] r.Err == nil && rle(r.Reader, old(taken(r.Reader)), 8) != 0 && inrange(signed(rle(r.Reader, old(taken(r.Reader)), 8), 64) * 100, int64) ==> !isZeroTime(result) && unixNano(result) == signed(rle(r.Reader, old(taken(r.Reader)), 8), 64) * 100
 //@   noninterference [STALE] taken(r.Reader) < old(taken(r.Reader)) + 8 : r.buffer[0:8]
-//@   modifies r.buffer[0:8], r.Err, taken(r.Reader), failed(r.Reader), tr(r.buffer), hw(r.buffer)
+//@   modifies r.buffer[0:8], r.Err, taken(r.Reader), failed(r.Reader), any(io.LimitedReader.N), tr(r.buffer), hw(r.buffer)
 //@ func ReadGUID
 //@   requires okR(r)
 //@   ensures okR(r)
 //@   ensures [LATCH] taken(r.Reader) < old(taken(r.Reader)) + 16 ==> r.Err != nil
 //@   ensures [LATCH] old(r.Err) != nil ==> r.Err != nil
 //@   ensures [AGREE] r.Err == nil ==> taken(r.Reader) == old(taken(r.Reader)) + 16 && (forall j int :: 0 <= j && j < 16 ==> result[j] == rbyte(sid(r.Reader), old(taken(r.Reader)) + guidperm(j)))
-//@   modifies r.Err, taken(r.Reader), failed(r.Reader), fresh(byte), tr(), hw(), alloc()
+//@   modifies r.Err, taken(r.Reader), failed(r.Reader), any(io.LimitedReader.N), fresh(byte), tr(), hw(), alloc()
 //@ func ReadString
 //@   requires okR(r)
 //@   ensures okR(r)
 //@   ensures [LATCH] old(r.Err) != nil ==> r.Err != nil
 //@   ensures [AGREE] r.Err == nil ==> taken(r.Reader) == old(taken(r.Reader)) + 4 + rle(r.Reader, old(taken(r.Reader)), 4) && result == rstr(sid(r.Reader), old(taken(r.Reader)) + 4, rle(r.Reader, old(taken(r.Reader)), 4))
 //@   ensures alloc() <= old(alloc()) + 4294967295
-//@   modifies r.buffer[0:8], r.Err, taken(r.Reader), failed(r.Reader), tr(), hw(), fresh(byte), alloc()
+//@   modifies r.buffer[0:8], r.Err, taken(r.Reader), failed(r.Reader), any(io.LimitedReader.N), tr(), hw(), fresh(byte), alloc()
